@@ -51,6 +51,8 @@ type blockFixture struct {
 	poor                       *itutiltypes.TestAccount // wallet with a tiny balance
 	vester                     *itutiltypes.TestAccount // a sender that is a vesting account
 	freeGas                    bool                     // the chain with base fee 0 and minimum gas price 0
+	scripted                   bool                     // the directed first block has been generated
+	script                     []int                    // forced transaction kinds of the directed block
 	maxGas                     int64
 	nonces                     map[int]uint64 // optimistic next nonce per wallet index
 	heavy                      bool
@@ -228,18 +230,28 @@ func runBlocks(t *testing.T, f *blockFixture, rng *hx.Rng, p *hx.Proto, nTx int)
 		_ = supplyBefore
 
 		n := 1 + rng.Intn(10)
+		if !f.scripted {
+			// directed first block of every chain: log-emitting transactions separated by transactions that pass the ante handler
+			// and then fail outside the EVM (value above the balance, a panic in the handler, intrinsic gas) or revert, a
+			// transaction straight to a log-emitting precompile, a creation — the running log index, transaction index and
+			// cumulative gas must survive every kind of failure in between
+			f.scripted = true
+			f.script = []int{20, 75, 20, 78, 20, 72, 29, 64, 42, 20}
+			n = len(f.script)
+		}
 		heavy := f.maxGas > 0 && rng.Chance(1, 5) && !f.freeGas // (a block above the gas target would move the base fee off zero for good)
 		var txs []genTx
 		for i := 0; i < n; i++ {
-			f.heavy = heavy && rng.Chance(2, 3)
-			if len(replayPool) > 0 && rng.Chance(1, 25) { // replay previously accepted bytes
+			f.heavy = heavy && rng.Chance(2, 3) && len(f.script) == 0
+			if len(f.script) == 0 && len(replayPool) > 0 && rng.Chance(1, 25) { // replay previously accepted bytes
 				r := replayPool[rng.Intn(len(replayPool))]
 				r.kind, r.replay = "replay", true
 				txs = append(txs, r)
 				continue
 			}
+			scriptedTx := len(f.script) > 0
 			txs = append(txs, f.genTx(rng, baseFee, ws))
-			if rng.Chance(1, 30) { // the same bytes twice in one block
+			if !scriptedTx && rng.Chance(1, 30) { // the same bytes twice in one block
 				r := txs[len(txs)-1]
 				r.kind, r.replay = "replay-same-block", true
 				txs = append(txs, r)
@@ -529,6 +541,9 @@ func (f *blockFixture) genTx(rng *hx.Rng, baseFee *big.Int, ws []*itutiltypes.Te
 	kind := rng.Intn(100)
 	if f.heavy { // fill the block: gas-hungry calls that consume their whole limit
 		kind = 48
+	}
+	if len(f.script) > 0 { // a directed block: the kinds are given
+		kind, f.script = f.script[0], f.script[1:]
 	}
 	switch {
 	case kind < 14: // plain transfer to a wallet
